@@ -389,12 +389,12 @@ func (k *checker) sentinel() {
 
 func Run(c *vl.Ctx) {
 	quick := c.Quick()
-	maxLen := 6
-	packV, packR := 64, 128
+	// thorough: length <= 5 (62 665 sequences x 8 pairs = 501 320 verdicts); length 6 has
+	// 495 183 further sequences (4 M verdicts), which does not fit the tier
+	maxLen := 5
+	packV, packR := 32, 128
 	if quick {
 		maxLen = 4
-	} else {
-		c.SetBudget(13 * time.Minute)
 	}
 	if v := os.Getenv("VERIF_C07_LEN"); v != "" {
 		maxLen, _ = strconv.Atoi(v)
@@ -427,7 +427,18 @@ func Run(c *vl.Ctx) {
 	}
 	k.pool = fe.NewPool(c.W, filepath.Join(c.Repo, "ferret_libs"), 16)
 	defer k.pool.Close()
+	// a packed program can take seconds on a loaded machine; a spurious time-out would start
+	// the pool's confirmation protocol (three fresh workers) and make the load worse
+	k.pool.Timeout = 120 * time.Second
+	k.pool.Confirm = 240 * time.Second
 	k.rn = run.New(c)
+	// budgets count from here (the compiler and the runtime are built); levels are done
+	// shortest first, so a capped run is complete up to a smaller length
+	if quick {
+		c.SetBudget(time.Since(c.Start) + 75*time.Second)
+	} else {
+		c.SetBudget(13 * time.Minute)
+	}
 	dbg := func(what string) {
 		if os.Getenv("VERIF_C07_DEBUG") != "" {
 			fmt.Fprintf(os.Stderr, "c07: %6.1fs %s (fe programs %d)\n", time.Since(c.Start).Seconds(), what, atomic.LoadInt64(&k.progs))
